@@ -12,6 +12,11 @@ use serde::{Deserialize, Serialize};
 
 #[derive(Debug, Clone, Serialize, Deserialize)]
 pub struct Case {
+    /// how a chain "moves": 0 all coordinates redrawn, 1 only a subset of the coordinates changes
+    /// (coordinate-wise samplers; parameter 0 often stays), 2 every coordinate moves to the next
+    /// representable f32 value (tiny but real moves)
+    #[serde(default)]
+    pub move_kind: u8,
     /// integer element types: lattice step multiplier (values reach +-2e5 when large)
     #[serde(default)]
     pub int_scale: u32,
@@ -41,11 +46,12 @@ fn pm() -> impl Strategy<Value = ParamModel> {
 
 fn strategy(max_len: usize) -> BoxedStrategy<Case> {
     let len = prop_oneof![4 => 2usize..12, 4 => 12usize..80, 2 => 80usize..600, 1 => 600usize..=max_len];
-    bx((2usize..=16, len, 1usize..=8, 0u8..4, prop_oneof![Just(0.0f64), 0.05f64..0.9, Just(1.0f64)], any::<u64>(), prop_oneof![2 => Just(1u32), 1 => Just(100u32), 1 => Just(8000u32)])
-        .prop_flat_map(|(chains, len, np, etype, stick, data_seed, int_scale)| {
-            (Just(chains), Just(len), proptest::collection::vec(pm(), np), Just(etype), Just(stick), Just(data_seed), Just(int_scale))
+    bx((2usize..=16, len, 1usize..=8, 0u8..4, prop_oneof![Just(0.0f64), 0.05f64..0.9, Just(1.0f64)], any::<u64>(), (prop_oneof![2 => Just(1u32), 1 => Just(100u32), 1 => Just(8000u32)], prop_oneof![3 => Just(0u8), 2 => Just(1u8), 1 => Just(2u8)]))
+        .prop_flat_map(|(chains, len, np, etype, stick, data_seed, (int_scale, move_kind))| {
+            (Just(chains), Just(len), proptest::collection::vec(pm(), np), Just(etype), Just(stick), Just(data_seed), Just(int_scale), Just(move_kind))
         })
-        .prop_map(|(chains, len, params, etype, stick, data_seed, int_scale)| Case {
+        .prop_map(|(chains, len, params, etype, stick, data_seed, int_scale, move_kind)| Case {
+            move_kind,
             int_scale,
             chains,
             len,
@@ -100,7 +106,21 @@ fn gen_states(case: &Case) -> (Vec<Vec<Vec<f64>>>, Vec<Vec<f64>>) {
         let mut states: Vec<Vec<f64>> = Vec::with_capacity(case.len);
         let mut prev = init.clone();
         for _ in 0..case.len {
-            let s = if rng.unif() < case.stick.0 { prev.clone() } else { draw(&mut rng, &mut ar_prev) };
+            let s = if rng.unif() < case.stick.0 {
+                prev.clone()
+            } else {
+                let fresh = draw(&mut rng, &mut ar_prev);
+                match case.move_kind {
+                    1 if np >= 2 => {
+                        // a coordinate-wise move: parameter 0 (and possibly others) keeps its value
+                        let keep_until = 1 + rng.below(np as u64 - 1) as usize;
+                        (0..np).map(|p| if p < keep_until { prev[p] } else { fresh[p] }).collect()
+                    }
+                    2 if !integer => prev.iter().map(|v| crate::engine::num::next_up32(*v as f32) as f64).collect(),
+                    2 => prev.iter().map(|v| v + 1.0).collect(),
+                    _ => fresh,
+                }
+            };
             prev = s.clone();
             states.push(s);
         }
